@@ -28,11 +28,18 @@ CFG = {"Nmax": 3, "Mmax": 2, "degmax": 2, "nx_max": 2, "nu_max": 1, "np_max": 1,
        "param_kinds": [(3, "g"), (1, "c")]}
 
 
-def stage_ops(r, cfg, kind, name, time_in=True):
+def stage_ops(r, cfg, kind, name, time_in=True, shared_method=None):
     """content of one stage / template as ops addressed to it"""
     c = dict(cfg)
     c["time_in_ode"] = time_in
     ops, sp = G.gen_base(r, c)
+    if shared_method is not None and not sp.names("algebraic") and not sp.nxt:
+        # the user builds one method object and hands the same object to several stages
+        for op in ops:
+            if op["op"] == "method":
+                op["m"] = jcopy(shared_method)
+                op["obj"] = "shared"
+        fix_N(ops, sp, shared_method["N"], r, c)
     head = ops[0]
     first = {"op": kind, "name": name}
     for k in ("T", "t0"):
@@ -46,6 +53,15 @@ def stage_ops(r, cfg, kind, name, time_in=True):
         op["stage"] = name
         out.append(op)
     return out, sp
+
+
+def fix_N(ops, sp, N, r, cfg):
+    """array-shaped values / guesses must follow the number of intervals of the shared method"""
+    for op in ops:
+        if op["op"] == "set_value" and sp.sym(op["p"]).get("grid", ""):
+            op["v"] = G.gen_value(r, sp.sym(op["p"]), N)
+        if op["op"] == "set_initial" and op["g"][0] == "arr" and op["x"] not in ("T", "t0"):
+            op["g"] = ["num", G.rnum(r)]
 
 
 class World12:
@@ -483,15 +499,17 @@ def gen_run(r, w, steps, emit, restarts=False):
     if swarm["parent_var"]:
         emit({"op": "sym", "name": "vP", "kind": "variable"})
     names = {"tpl": [], "stage": []}
+    shared = G.gen_method(r, cfg) if r.random() < 0.3 else None
+    swarm["shared_method_object"] = bool(shared)
     for i in range(swarm["n_templates"]):
         nm = "tp%d" % (i + 1)
-        ops, _ = stage_ops(r, cfg, "template", nm, time_in=swarm["time_in_template"])
+        ops, _ = stage_ops(r, cfg, "template", nm, time_in=swarm["time_in_template"], shared_method=shared)
         for op in ops:
             emit(op)
         names["tpl"].append(nm)
     for i in range(swarm["n_direct"]):
         nm = "s%d" % (i + 1)
-        ops, _ = stage_ops(r, cfg, "stage", nm)
+        ops, _ = stage_ops(r, cfg, "stage", nm, shared_method=shared)
         for op in ops:
             emit(op)
         names["stage"].append(nm)
